@@ -42,6 +42,7 @@ type Scenario struct {
 	Cred       string  `json:"cred"`
 	Ident      Ident   `json:"ident"`
 	LoginAfter int     `json:"loginAfter"` // the RemoteLogin is delivered after this many groups
+	LoginSec   int64   `json:"loginSec"`   // LoggedAt of the sshd login event (seconds): before, among or after the records' timestamps
 	Groups     []Group `json:"groups"`
 }
 
@@ -371,6 +372,21 @@ func genScenario(r *hutil.Rand, long bool) Scenario {
 		sc.LoginAfter = 1
 	default:
 		sc.LoginAfter = r.Intn(len(sc.Groups) + 1)
+	}
+	// the sshd line's own timestamp: the login is logged while the session runs, so it is usually LATER
+	// than the records that were held for it; also earlier, and far away in both directions
+	first, last := sc.Groups[0].Sec, sc.Groups[len(sc.Groups)-1].Sec
+	switch r.Intn(5) {
+	case 0:
+		sc.LoginSec = first - 1 - int64(r.Intn(100))
+	case 1:
+		sc.LoginSec = last + 1 + int64(r.Intn(100))
+	case 2:
+		sc.LoginSec = first + (last-first)/2
+	case 3:
+		sc.LoginSec = last + 86400*365
+	default:
+		sc.LoginSec = 1600000000
 	}
 	return sc
 }
